@@ -26,11 +26,19 @@ type recHandler struct {
 	gotBody  ref.Val
 	calls    int
 	errorMsg string
+	echo     bool // mode 0: the reply wraps the request's own (lazily decoded) body behind another field
 }
 
 func (h *recHandler) Handle(name string, body wire.Value) (wire.Value, error) {
 	h.calls++
 	h.gotName = name
+	if h.echo && h.mode == 0 {
+		// the body is handed back as it came (its containers are still lazy views of the request)
+		return wire.NewValueStruct(wire.Struct{Fields: []wire.Field{
+			{ID: 1, Value: wire.NewValueString("echoed")},
+			{ID: 2, Value: body},
+		}}), nil
+	}
 	h.gotBody, _ = refwire.Force(body)
 	switch h.mode {
 	case 1:
@@ -42,14 +50,18 @@ func (h *recHandler) Handle(name string, body wire.Value) (wire.Value, error) {
 }
 
 type loopTransport struct {
-	srv      ienvelope.Server
-	requests [][]byte
-	replies  [][]byte
+	srv       ienvelope.Server
+	requests  [][]byte
+	replies   [][]byte
+	clobbered bool // Handle changed the bytes of a request it was given
 }
 
 func (t *loopTransport) Send(b []byte) ([]byte, error) {
 	t.requests = append(t.requests, append([]byte{}, b...))
 	out, err := t.srv.Handle(b)
+	if !bytes.Equal(b, t.requests[len(t.requests)-1]) {
+		t.clobbered = true
+	}
 	if err == nil {
 		t.replies = append(t.replies, append([]byte{}, out...))
 	}
@@ -67,6 +79,7 @@ func c12EnvServer(res *world.Result, logf func(string, ...interface{}), h *world
 	ns := 1 + ch("env.services", 3)
 	for i := 0; i < ns; i++ {
 		hd := &recHandler{service: svcNames[i], mode: ch("env.handler-mode", 3), reply: genVal(ref.TStruct, 0, genOpts{maxDepth: 2}), errorMsg: fmt.Sprintf("boom-%d", ch("env.err", 100))}
+		hd.echo = simrt.Flip("env.handler-echo", 0.3)
 		handlers[svcNames[i]] = hd
 		mux.Put(svcNames[i], hd)
 	}
@@ -106,6 +119,13 @@ func c12EnvServer(res *world.Result, logf func(string, ...interface{}), h *world
 		res.Failf("C12/env-client", "request body %s differs from what was sent %s", req.Body, body)
 	}
 	hd, known := handlers[target]
+	if tr.clobbered {
+		res.Failf("C12/env-server", "Handle changed the bytes of the request it was given")
+	}
+	if known && hd.echo && hd.mode == 0 {
+		hd.reply = ref.Struct(ref.F(1, ref.Str("echoed")), ref.F(2, body))
+		hd.gotBody = body
+	}
 	if len(tr.replies) == 1 {
 		rep, n, derr := ref.DecodeEnvelope(tr.replies[0])
 		if derr != nil || n != len(tr.replies[0]) {
